@@ -552,7 +552,12 @@ pub fn case(seed: u64, st: &mut Stats) {
             st.eval();
             match catch(|| cmd.clone().try_get_matches_from(r.argv.clone())) {
                 Err(p) => st.violation(format!("panic:parse@{}", p.loc), format!("{} | argv={}", p.msg, show_argv(&r.argv))),
-                Ok(Ok(_)) => st.count("faultfree.accepted"),
+                Ok(Ok(_)) => {
+                    st.count("faultfree.accepted");
+                    if r.features.iter().any(|f| f.starts_with("prefix.long-by-")) {
+                        st.count("faultfree.prefix-by-inherited-setting");
+                    }
+                }
                 Ok(Err(e)) => {
                     st.violation(
                         format!("c10:valid-line-rejected:{:?}", e.kind()),
